@@ -99,7 +99,8 @@ from contracts.attributes import AT, AttrVal, ATTR_SORT, same
 
 W = z3.Function("string_width_inches", StrSort, z3.IntSort(), z3.RealSort(), z3.RealSort())       # get_string_width(text, font, size)
 HROWS = z3.Function("header_rows", StrSort, z3.IntSort())
-META_COLS = dict(row_index=z3.IntSort(), data_rows=z3.IntSort(), pageby_header_rows=z3.IntSort(), subline_header_rows=z3.IntSort(),
+META_COLS = dict(row_index=z3.IntSort(), data_rows=z3.IntSort(), pageby_header_rows=z3.IntSort(), continuation_header_rows=z3.IntSort(),
+                 subline_header_rows=z3.IntSort(),
                  column_header_rows=z3.IntSort(), total_rows=z3.IntSort(), page=z3.IntSort(), is_group_start=z3.BoolSort(), is_subline_start=z3.BoolSort())
 
 
@@ -258,6 +259,8 @@ class RowMetadata(Contract):
             meta = st.obj(args[1])
             k = z3.Int("ak")
             I.oblige(st, f"call._assign_pages#pre.heights_pos@L{site}", ForAll([k], Implies(And(0 <= k, k < meta.n), Select(meta.cols["total_rows"], k) >= 1)), "pre", site)
+            I.oblige(st, f"call._assign_pages#pre.page_top_headings_cover_group_start_headings@L{site}",
+                     ForAll([k], Implies(And(0 <= k, k < meta.n), Select(meta.cols["continuation_header_rows"], k) >= Select(meta.cols["pageby_header_rows"], k))), "pre", site)
             cols = dict(meta.cols)
             cols["page"] = z3.Array(fresh_name("assigned.page"), z3.IntSort(), z3.IntSort())
             st.ghost["assign_args"] = (args[2], args[3])
@@ -313,11 +316,18 @@ class RowMetadata(Contract):
                 # C05: a group whose page_by values are all the divider '-----' has no heading, so it must not cost a row
                 parts["C05.divider_only_group_costs_no_heading_row"] = lambda k: Implies(And(*[key_str(d, k, col) == lit("-----") for col in pb]),
                                                                                            Select(cols["pageby_header_rows"], k) == 0)
-            if len(pb) >= 2:
+            if pb:
                 # C03: the renderer shows ONE heading row per page_by level from the first level that changed downwards (dividers
                 # excluded); the budget of a group-start row has to cover all of them
-                parts["heading_budget_covers_every_heading_row_rendered_at_a_group_start(multi_level)"] = \
+                parts["C03.heading_budget_covers_every_heading_row_rendered_at_a_group_start"] = \
                     lambda k: Select(cols["pageby_header_rows"], k) >= self.rendered_heading_rows(c, pb, k)
+                # ... and at the top of a page every non-divider level is shown again (render step 7): continuation_header_rows covers them
+                parts["C03.page_top_heading_rows_cover_every_level_shown_at_a_page_top"] = \
+                    lambda k: Select(cols["continuation_header_rows"], k) >= z3.Sum(*[If(key_str(d, k, col) != lit("-----"), 1, 0) for col in pb]) \
+                    if len(pb) > 1 else Select(cols["continuation_header_rows"], k) >= If(key_str(d, k, pb[0]) != lit("-----"), 1, 0)
+                parts["page_top_headings_cover_group_start_headings"] = lambda k: Select(cols["continuation_header_rows"], k) >= Select(cols["pageby_header_rows"], k)
+            else:
+                parts["no_page_by_no_page_top_headings"] = lambda k: And(Select(cols["continuation_header_rows"], k) == 0, Select(cols["pageby_header_rows"], k) == 0)
             for nm, f in parts.items():
                 cl["records." + nm] = ForAll([k], Implies(And(0 <= k, k < v.i), f(k)))
             return cl
